@@ -3059,7 +3059,7 @@ fn strip_nulls_object(header: u32, value: &[u8]) -> Result<ObjectBuilder<'_>, Er
 /// Possible types are object, array, string, number, boolean, and null.
 pub fn type_of(value: &[u8]) -> Result<&'static str, Error> {
     if !is_jsonb(value) {
-        return match value.first() {
+        return match first_value_byte(value) {
             Some(v) => match v {
                 b'n' => Ok(TYPE_NULL),
                 b't' | b'f' => Ok(TYPE_BOOLEAN),
@@ -3091,6 +3091,24 @@ pub fn type_of(value: &[u8]) -> Result<&'static str, Error> {
         OBJECT_CONTAINER_TAG => Ok(TYPE_OBJECT),
         _ => Err(Error::InvalidJsonbHeader),
     }
+}
+
+// The first byte of a `JSON` text after the white space the parser skips in front of a value.
+fn first_value_byte(value: &[u8]) -> Option<&u8> {
+    let mut idx = 0;
+    while idx < value.len() {
+        let c = value[idx];
+        if c.is_ascii_whitespace() {
+            idx += 1;
+        } else if c == b'\\' && matches!(value.get(idx + 1), Some(b'n' | b'r' | b't')) {
+            idx += 2;
+        } else if value[idx..].starts_with(b"\\x0C") {
+            idx += 4;
+        } else {
+            break;
+        }
+    }
+    value.get(idx)
 }
 
 // Check whether the value is `JSONB` format,
